@@ -157,7 +157,8 @@ fn main() {
                 out.push(l, i, v);
                 if gi < nbeh {
                     let alpha = alphabet(&rules);
-                    let mut inputs = all_inputs(&alpha[..alpha.len().min(5)], len);
+                    // the idiom grammars need a few characters more (pushes, a repetition, a reader): longer inputs over fewer symbols
+                    let mut inputs = if gi < 48 { all_inputs(&alpha[..alpha.len().min(4)], len + 2) } else { all_inputs(&alpha[..alpha.len().min(5)], len) };
                     for _ in 0..10 { let n = rng.range(len + 1, len + 5); let mut s = String::new(); for _ in 0..n { s.push_str(*rng.pick(&alpha[..])); } inputs.push(s); }
                     let ins = inputs.iter().map(|x| hexs(x)).collect::<Vec<_>>().join(" ");
                     for r in rules.iter().filter(|r| r.name != "WHITESPACE" && r.name != "COMMENT").take(2) {
